@@ -667,6 +667,37 @@ def rule_k_empty_operand_range_unused(ctx, defs):
     return n
 
 
+def rule_l_cached_regularity_not_claimed_for_unfilled_ranges(ctx, units):
+    """IndexRange<N> caches whether it is regular; its rows live in its public base class VectorWithOffset<IndexRange<N-1>>, whose grow()
+    and operator[] change them without the cache being told.  A constructor may record `regular_true` only for a range it has filled
+    itself (base constructed with an extent AND fill() called); a constructor that leaves the base empty or copies rows of unknown shape
+    must record `regular_to_do` or copy the knowledge of its source.  Otherwise size_all() multiplies the first row's size by the
+    number of rows and Array(range) allocates too small a block (F83)."""
+    RULE = "C11.l-regularity-not-claimed-for-unfilled-ranges"
+    n = 0
+    seen = set()
+    for u in units:
+        if u is None:
+            continue
+        for f in sorted(u.functions, key=lambda g: not bool(g.is_dependent)):
+            if not f.qn.startswith("stir::IndexRange::IndexRange") or f.body is None or (f.file, f.body.line) in seen:
+                continue
+            inits = {(it.get("field") or "base"): node for it, node in f.inits}
+            if "is_regular_range" not in inits or inits["is_regular_range"] is None:
+                continue
+            seen.add((f.file, f.body.line))
+            flag = key(inits["is_regular_range"])
+            base = key(inits["base"]) if inits.get("base") is not None else ""
+            fills = any((c.callee or "").split("::")[-1] == "fill" or (c.k in ("CXXDependentScopeMemberExpr", "UnresolvedMemberExpr") and c.get("n") == "fill") for c in f.walk())
+            fills = fills or any(m.get("n") == "fill" for m in f.walk() if m.k in ("CXXDependentScopeMemberExpr", "UnresolvedMemberExpr", "MemberExpr"))
+            base_has_extent = bool(re.search(r"\[1\]", base))
+            claims = "regular_true" in flag
+            ok = not claims or (base_has_extent and fills)
+            ctx.ob(RULE, "stir::IndexRange<N>::IndexRange(" + f.sig[:60] + ")", "initial-knowledge", ok, f.where(), ("records %s" % flag.split("::")[-1].rstrip(")")) + ("" if not claims else " for a range it sizes and fills itself") if ok else "records regular_true for a range whose rows it has not made itself (base initialised with `%s`%s): rows added later through the base class make the range irregular without the cached answer changing - size_all() and Array(range) then use the size of the first row for all rows" % (base or "()", "" if fills else ", no fill()"))
+            n += 1
+    return n
+
+
 def run(ctx):
     ctx.explanation = (
         "Decides from the source, for VectorWithOffset, NumericVectorWithOffset and Array: (a) every raw subscript X.num[i] "
@@ -689,6 +720,8 @@ def run(ctx):
     if not defs:
         ctx.fail_broken("no function of the array classes found")
         return
+    rule_l_cached_regularity_not_claimed_for_unfilled_ranges(ctx, units[-1:])
+    ctx.require_count("C11.l-regularity-not-claimed-for-unfilled-ranges", 5)
     seen_xapyb = 0
     for fn in defs:
         if fn.body is None or not fn.cfg_raw:
